@@ -97,6 +97,16 @@ def run(chk):
         checks.append(("pdist-fn", meta, rp))
         ops.append({"op": "cdist_mat", "as": xs, "bs": ys, **table})
         checks.append(("cdist-fn", meta, rc))
+        # the helpers take any iterable: a pandas Series with permuted / filtered labels is read positionally
+        import pandas as pd
+        if len(xs) >= 2:
+            perm = rng.sample(range(len(xs)), len(xs))
+            sx = pd.Series(xs, index=perm)
+            sy = pd.Series(ys, index=[i * 3 + 1 for i in range(len(ys))])
+            ops.append({"op": "pdist_loop", "xs": xs, "metric": "lev"})
+            checks.append(("pdist-fn-series", meta, core.call_real(lambda: np.asarray(ds.pdist(sx)))))
+            ops.append({"op": "cdist_mat", "as": xs, "bs": ys, "metric": "lev"})
+            checks.append(("cdist-fn-series", meta, core.call_real(lambda: np.asarray(ds.cdist(sx, sy)))))
         # default metric of the helpers is Levenshtein
         ops.append({"op": "pdist_loop", "xs": xs, "metric": "lev"})
         checks.append(("pdist-fn-default", meta, core.call_real(lambda: np.asarray(ds.pdist(xs)))))
